@@ -141,6 +141,86 @@ def float_history(ctx, d, name, nops, singular_start, scale=1.0):
     ctx.extra["worst_asym_rel"] = max(ctx.extra.get("worst_asym_rel", 0.0), worst[1])
 
 
+def slowly_varying_precise_history(ctx):
+    """predict/update cycles whose innovation covariance changes only in the 6th-7th significant digit from one cycle to the next
+    (a step length drifting by 4e-7 per cycle), with a sensor far more precise than the predicted variance; and the same at a scale
+    of 1e-9. Every covariance must stay valid and none may be refused."""
+    dt = Symbol("dt")
+    p, v, a = sympy.symbols("pos9 vel9 acc9")
+    d = gen.Definition(dt, [p, v], [a], [], {p: p + dt * v, v: v + dt * a}, {"speedo": {"speed9": v}})
+    from fractions import Fraction as Fr
+    for label, pn, sn, p0 in (("ordinary-scale", Fr(100), Fr(1, 10 ** 8), 1.0), ("small-scale", Fr(5, 10 ** 7), Fr(1, 10 ** 10), 1e-9)):
+        process, sensor = {"acc9": pn}, {"speedo": {"speed9": sn}}
+        case = {"model": "slowly-varying-precise", "variant": label, "def": d.describe(), "seed": ctx.seed}
+        ctx.case(case, True); ctx.count("model=slowly-varying-precise")
+        try:
+            ekf = eh.compile_ekf(d, process, sensor, {}, ctx.rng, cse=True, filtering=None, max_dt=0.5)
+        except Exception as e:
+            ctx.fail(f"compile-ekf-raises:{fk.exc_kind(e)}", repr(e)[:300], case); continue
+        st = ekf.State(pos9=0.0, vel9=1.0)
+        cov = ekf.Covariance.from_data(np.eye(2) * p0)
+        ncycles = 30 if ctx.quick else 300
+        for k in range(ncycles):
+            step_dt = 0.1 + 4e-7 * k
+            try:
+                with fk.quiet():
+                    st, cov = ekf.process_model(step_dt, st, cov, ekf.Control(acc9=0.25))
+                    pred = ekf.sensor_models["speedo"].model(st)
+                    z = ekf.make_reading("speedo", data=pred.data + np.array([[1e-4 * ((k % 3) - 1)]]))
+                    st, cov = ekf.sensor_model(st, cov, sensor_key="speedo", sensor_reading=z)
+            except AssertionError as e:
+                ctx.fail("covariance-refused:slowly-varying", f"cycle {k} refuses a covariance as invalid ({str(e).splitlines()[0]})", dict(case, cycle=k))
+                break
+            except Exception as e:
+                ctx.fail(f"history-raises:{fk.exc_kind(e)}", f"cycle {k} raises {e!r}"[:300], dict(case, cycle=k)); break
+            me, asym = min_eig_rel(cov.data)
+            if me < -1e-9 or asym > 1e-9:
+                ctx.fail("covariance-invalid:slowly-varying", f"after cycle {k} the covariance has min eigenvalue/scale={me:.3e}, asymmetry/scale={asym:.3e}",
+                         dict(case, cycle=k, covariance=cov.data.tolist()))
+                break
+
+
+def overdetermined_histories(ctx):
+    """a sensor with MORE readings than the filter has states (position, velocity and their sum of a 2-state filter), from priors
+    that are singular (exactly correlated states) or much larger than the reading noise: every posterior must be a valid covariance
+    and the next step must accept it"""
+    dt = Symbol("dt")
+    p, v, a = sympy.symbols("pos8 vel8 acc8")
+    d = gen.Definition(dt, [p, v], [a], [], {p: p + dt * v, v: v + dt * a}, {"triple": {"r_pos": p, "r_vel": v, "r_sum": p + v}})
+    from fractions import Fraction as Fr
+    variants = [("singular-prior", np.array([[1.0, 1.0], [1.0, 1.0]]), Fr(1, 4)), ("zero-variance-prior", np.diag([0.0, 2.0]), Fr(1, 2)),
+                ("prior/noise=1e4", np.eye(2) * 1e2, Fr(1, 100)), ("prior/noise=1e6", np.eye(2) * 1e3, Fr(1, 1000)),
+                ("prior/noise=1e8", np.eye(2) * 1e4, Fr(1, 10000))]
+    for label, P0, noise in variants:
+        sensor = {"triple": {"r_pos": noise, "r_vel": noise * 2, "r_sum": noise * 3}}
+        case = {"model": "overdetermined", "variant": label, "def": d.describe(), "prior": P0.tolist(), "reading_noise": str(noise)}
+        ctx.case(case, True); ctx.count("model=overdetermined")
+        try:
+            ekf = eh.compile_ekf(d, {"acc8": Fr(1, 2)}, sensor, {}, ctx.rng, cse=True, filtering=None, max_dt=0.5)
+        except Exception as e:
+            ctx.fail(f"compile-ekf-raises:{fk.exc_kind(e)}", repr(e)[:300], case); continue
+        st = ekf.State(pos8=1.0, vel8=2.0)
+        cov = ekf.Covariance.from_data(P0.copy())
+        try:
+            with fk.quiet():
+                for k in range(4):
+                    pred = ekf.sensor_models["triple"].model(st)
+                    z = ekf.make_reading("triple", data=pred.data + np.array([[0.1], [-0.1], [0.05]]) * float(noise) ** 0.5)
+                    st, cov = ekf.sensor_model(st, cov, sensor_key="triple", sensor_reading=z)
+                    me, asym = min_eig_rel(cov.data)
+                    if me < -1e-9 or asym > 1e-9:
+                        ctx.fail("covariance-invalid:overdetermined", f"{label}: after update {k} the covariance has min eigenvalue/scale={me:.3e}, "
+                                 f"asymmetry/scale={asym:.3e}: {np.asarray(cov.data).tolist()}", dict(case, update=k))
+                        raise StopIteration
+                    st, cov = ekf.process_model(0.25, st, cov, ekf.Control(acc8=0.5))
+        except StopIteration:
+            continue
+        except AssertionError as e:
+            ctx.fail("covariance-refused:overdetermined", f"{label}: a step refuses the filter's own covariance ({(str(e).splitlines() or ['AssertionError'])[0][:120]})", case)
+        except Exception as e:
+            ctx.fail(f"history-raises:{fk.exc_kind(e)}:overdetermined", f"{label}: {e!r}"[:300], case)
+
+
 def run(ctx):
     audit = core.lean_audit("C09")
     # (a) short exact histories against the Lean model (predict / update chains)
@@ -191,6 +271,8 @@ def run(ctx):
             float_history(ctx, singular_generated(ctx.rng), "generated-singular", nops // 3, singular_start=False)
         else:
             float_history(ctx, tame_definition(ctx.rng, False), "rocket-lite", nops // 3, False)
+    slowly_varying_precise_history(ctx)
+    overdetermined_histories(ctx)
     cpp_histories(ctx)
     return core.finish(ctx, audit, NOTE, RULE, PARTIAL)
 
